@@ -40,8 +40,16 @@ func (ex *Exec) subRef(base *Term, st types.Type, i int, s *State) *Term {
 	u := st.Underlying().(*types.Struct)
 	f := u.Field(i)
 	name := "sub_" + typeKey(st) + "." + sanitize(f.Name())
-	ex.ctx.Fun(name, []string{SRef}, SRef)
-	ex.ctx.Fun("parent_"+name, []string{SRef}, SRef)
+	if _, done := ex.ctx.declared[name]; !done {
+		ex.ctx.Fun(name, []string{SRef}, SRef)
+		ex.ctx.Fun("parent_"+name, []string{SRef}, SRef)
+		// sub-objects are injective in their parent and never nil
+		r := V("r!sub", SRef)
+		sr := App(name, SRef, r)
+		ax := &Term{Op: "forall", Sort: SBool, Bound: []Bound{{"r!sub", SRef}}, Pat: []*Term{sr},
+			Args: []*Term{And(Eq(App("parent_"+name, SRef, sr), r), Neq(sr, TNull))}}
+		ex.axioms = append(ex.axioms, ax)
+	}
 	t := App(name, SRef, base)
 	if ex.ghost == 0 {
 		ex.assumeGlobal(Eq(App("parent_"+name, SRef, t), base))
@@ -208,10 +216,7 @@ func (ex *Exec) typeFacts(v *Term, t types.Type) *Term {
 	case *types.Slice:
 		return And(Le(IntLit(0), SOff(v)), Le(IntLit(0), SLen(v)), Le(SLen(v), SCap(v)),
 			Implies(Eq(SArr(v), TNull), Eq(SCap(v), IntLit(0))))
-	case *types.Basic:
-		if v.Sort == SStr {
-			return Le(IntLit(0), App("str_len", SInt, v))
-		}
 	}
+	// strings: len >= 0 holds of every Str (global axiom + ground facts where len is taken)
 	return TTrue
 }
